@@ -20,7 +20,7 @@ from __future__ import annotations
 
 import numpy as np
 
-S_KINDS = {"var", "elem", "melem", "const", "param", "vparam_elem", "bin", "un", "vsum", "vector_sum", "dot", "dotself",
+S_KINDS = {"chain", "var", "elem", "melem", "const", "param", "vparam_elem", "bin", "un", "vsum", "vector_sum", "dot", "dotself",
            "lincomb", "norm", "quad", "msum", "fro", "trace"}
 V_KINDS = {"view", "vvar", "slice", "row", "col", "diag", "vbin", "vneg", "vfn", "vpow", "matvec",
            "mvarvec", "vexpr"}
@@ -197,6 +197,13 @@ class ElemAlg:
 
     def n_un(self, f, a):
         return self.sc.un(f, self.ev(a))
+
+    def n_chain(self, op, terms, assoc):
+        """t1 op t2 op ... op tn accumulated term by term (the meaning does not depend on `assoc`)"""
+        acc = self.ev(terms[0])
+        for t in terms[1:]:
+            acc = self.sc.bin(op, acc, self.ev(t))
+        return acc
 
     # ---- reductions
     def _fold(self, items):
@@ -474,6 +481,24 @@ class BuildAlg:
             return -x
         fn = getattr(self.ox, "abs_" if f == "abs" else f)
         return fn(x)
+
+    def n_chain(self, op, terms, assoc):
+        ts = [self.ev(t) for t in terms]
+        if assoc == "left":  # the documented loop idiom: acc = acc op t
+            acc = ts[0]
+            for t in ts[1:]:
+                acc = self._apply(op, acc, t)
+            return acc
+        # balanced: t1 op (t2 (+) ... (+) tn) with (+) the associative dual of op, combined pairwise
+        dual = {"+": "+", "*": "*", "-": "+", "/": "*"}[op]
+
+        def bal(lst):
+            while len(lst) > 1:
+                lst = [self._apply(dual, lst[i], lst[i + 1]) if i + 1 < len(lst) else lst[i] for i in range(0, len(lst), 2)]
+            return lst[0]
+        if op in ("+", "*"):
+            return bal(ts)
+        return ts[0] if len(ts) == 1 else self._apply(op, ts[0], bal(ts[1:]))
 
     def n_vsum(self, V):
         return self.ev(V).sum()
